@@ -689,7 +689,8 @@ class Element(UnicodeMixin):
     def refitPrefixes(self):
         """
         Refit namespace qualification by replacing prefixes with explicit
-        namespaces. Also purges prefix mapping table.
+        namespaces. The prefix mapping table is kept as attributes (xsi:nil,
+        xsi:type) and QName attribute values may still use the prefixes.
 
         @return: self
         @rtype: L{Element}
@@ -702,7 +703,6 @@ class Element(UnicodeMixin):
             if ns[1] is not None:
                 self.expns = ns[1]
         self.prefix = None
-        self.nsprefixes = {}
         return self
 
     def normalizePrefixes(self):
